@@ -946,6 +946,10 @@ class CombinedMultiDict(ImmutableMultiDictMixin[K, V], MultiDict[K, V]):  # type
         """
         return MultiDict(self)
 
+    def deepcopy(self, memo: t.Any = None) -> te.Self:
+        """Return a deep copy of this object and the wrapped dicts."""
+        return self.__class__(deepcopy(self.dicts, memo))
+
     def __len__(self) -> int:
         return len(self._keys_impl())
 
